@@ -107,6 +107,65 @@ def _after(regs, mem, fill, o) -> Tuple[Dict[str, int], Dict[int, int]]:
     return r2, m2
 
 
+LP = [bytes.fromhex(x) for x in ("de", "df", "32ccf8ff", "32ccf800", "32ccfeff", "32ccfe00", "32ccf827", "32ccfe04")]
+
+
+def lp_sequences(pal):
+    """Histories that pass through HALT/OFF (part B skips them: its histories are one instruction and must leave the core
+    running): low-power instruction, then the program rewrites the status registers HALT/OFF touch (USR, SSR), then any
+    instruction - in particular HALT/OFF again."""
+    seqs = [[a, b, c] for a in LP[:2] for b in LP[2:] for c in LP[:2]]
+    seqs += [[a, b, c, d] for a in LP[:2] for b in LP[2:4] for c in LP[4:6] for d in LP[:2]]
+    seqs += [[a, b, a2, c, d] for a in LP[:2] for b in (LP[2], LP[3]) for a2 in LP[:2] for c in (LP[3], LP[5]) for d in LP[:2]]
+    seqs += [[a, x] for a in LP[:2] for x in pal]
+    return seqs
+
+
+def _shard_lp(args):
+    seqs, st = args
+    h = rb.harness()
+    vb = VB()
+    n = 0
+    for seq in seqs:
+        code = b"".join(seq) + bytes(4)
+        last_lp = seq[-1] in LP[:2]
+        regs, mem, fill = c06.build_case(code, st, CODE)
+        k = len(seq)
+        w = {"part": "L", "seq": [x.hex() for x in seq], "state": c06_state(st)}
+        mn = "+".join(c06._mnemonic(x + bytes(4)) for x in seq)
+        # ---- python: the last instruction in the emulator that ran the history (woken up, as a wake-up event does) vs a fresh one
+        emu, fm = pycpu.make(regs, mem, fill)
+        o1 = pycpu.run(regs, mem, fill, steps=k - 1, emu_fm=(emu, fm), ignore_power=True)
+        if not o1["err"] and len(o1["lens"]) == k - 1:
+            emu.state.halted = False
+            fm.written.clear()
+            o2 = pycpu.run(regs, mem, fill, steps=1, emu_fm=(emu, fm), ignore_power=True)
+            r2, m2 = _after(regs, mem, fill, o1)
+            of = pycpu.run(r2, m2, fill, steps=1, ignore_power=True)
+            n += 1
+            if arch(o2) != arch(of):
+                vb.add(f"C07/python/low-power-history/{mn}",
+                       f"after {[x.hex() for x in seq[:-1]]}, executing {seq[-1].hex()} in the same emulator differs from a fresh "
+                       f"emulator with the same registers/memory: {_diff(o2, of)}", dict(w, impl="python"))
+        # ---- rust: k steps in one LlamaState vs k-1 steps + fresh LlamaState
+        a2, a1 = h.batch([c06.rs_req(regs, mem, fill, steps=k, ignore_power=True), c06.rs_req(regs, mem, fill, steps=k - 1, ignore_power=True)])
+        if a1.get("panic") or a1.get("err") or a2.get("panic") or a2.get("err"):
+            continue
+        rr, mm = _after(regs, mem, fill, a1)
+        rr["IMR"] = a1["regs"]["IMR"]
+        af = h.call(c06.rs_req(rr, mm, fill, steps=1, ignore_power=True))
+        comb = dict((a, v) for a, v in a1["writes"])
+        comb.update((a, v) for a, v in af.get("writes", []))
+        n += 1
+        same = (not af.get("panic")) and all(a2["regs"][r] == af["regs"][r] for r in pycpu.ARCH_REGS) and \
+            sorted(comb.items()) == sorted((a, v) for a, v in a2["writes"]) and (not last_lp or a2["power"] == af["power"])
+        if not same:
+            vb.add(f"C07/rust/low-power-history/{mn}",
+                   f"after {[x.hex() for x in seq[:-1]]}, executing {seq[-1].hex()} in the same LlamaState differs from a fresh "
+                   f"LlamaState with the same registers/memory: {_diff(a2, af) if not af.get('panic') else af}", dict(w, impl="rust"))
+    return {"n": n, "vb": vb}
+
+
 def _shard_b(args):
     hs, pal, st = args
     h = rb.harness()
@@ -401,6 +460,10 @@ def run(ctx) -> None:
     hist = pal + [bytes.fromhex(x) for x in ("040610", "05081000", "fe")]  # CALL / CALLF / IR as histories
     resB = pmap(_shard_b, [(s, pal, st) for st in ([st_a, st_b] if ctx.thorough else [st_a]) for s in chunks(hist, nproc())])
     ctx.log(f"part B: {sum(r['n'] for r in resB)} (history, instruction) comparisons")
+    lps = lp_sequences(pal)
+    resL = pmap(_shard_lp, [(c, st_a) for c in chunks(lps, nproc())])
+    ctx.log(f"part L: {sum(r['n'] for r in resL)} comparisons after histories through HALT/OFF")
+    ctx.coverage["part_L_low_power_histories"] = {"sequences": len(lps), "comparisons": sum(r["n"] for r in resL)}
     from .. import flow
     fl = list(flow.scripts(5 if ctx.thorough else 4))
     resF = pmap(_shard_flow, [(c, st_a) for c in chunks(fl, nproc() * 2)])
@@ -438,7 +501,7 @@ def run(ctx) -> None:
     nE, vbE = _part_e(st_a)
     cases = [p for p in pal]
     resC = [_part_c((cases, st_a))]
-    for r in resA + resB + resD + resC + resF:
+    for r in resA + resB + resD + resC + resF + resL:
         ctx.merge_bucket(r["vb"])
     ctx.merge_bucket(vbE)
     total = sum(r["n"] for r in resA + resB + resD + resC) + nE
@@ -513,6 +576,12 @@ def replay(ctx, w) -> Optional[str]:
     if w.get("book"):
         from . import c07_book
         return c07_book.replay(w)
+    if part == "L":
+        r = _shard_lp(([[bytes.fromhex(x) for x in w["seq"]]], st))
+        for sig, (cnt, wl) in r["vb"].d.items():
+            if f"/{w.get('impl')}/" in sig or not w.get("impl"):
+                return wl[0][0]
+        return None
     if part == "S":
         r = _part_s(([bytes.fromhex(x) for x in w.get("history", [])] + [bytes.fromhex(w["bytes"])], st))
         for sig, (cnt, wl) in r["vb"].d.items():
